@@ -129,6 +129,9 @@ func (c SlowCtx) Done() <-chan struct{} {
 	return c.Context.Done()
 }
 
+// OnBeforeSave, when set, is told how many changed nodes a round's block trie is about to save.
+var OnBeforeSave func(changes int)
+
 var dirSeq atomic.Int64
 
 // NewDir returns a fresh persistent directory name.
@@ -177,6 +180,9 @@ func ExecRound(dir string, prevRoot []byte, rd Round) (root []byte, dead []strin
 		if ierr := reader.Iterate(context.Background(), func(context.Context, util.Path, util.Key, util.Node) error { return nil }, util.NodeTypesAll); ierr != nil {
 			return root, dead, fmt.Errorf("HARNESS: a cold reader cannot iterate the block state before the save: %v", ierr)
 		}
+	}
+	if OnBeforeSave != nil {
+		OnBeforeSave(block.GetChangeCount())
 	}
 	if err = block.SaveChanges(SaveCtx(), pndb, false); err != nil {
 		return root, dead, err
